@@ -57,9 +57,14 @@ def check(ctx, tier):
     from .c17 import class_without_instances_row
     obs += ctx.attempt(class_without_instances_row, ctx, "D-j", default=[])
     from ..rules import scanner
+    obs += ctx.attempt(scanner.documents_never_raise, ctx, "D-j", default=[])   # valid Turtle / N-Triples documents are read to the end
     obs += ctx.attempt(scanner.line_reader_split, ctx, "D-j", default=[])      # raw documents are cut at '\\n' only (a literal may hold U+2028 ...)
     o_given, n_truth = ctx.attempt(null.given_is_not_none, ctx, "D-k", default=([], 0))    # an empty-but-given source is not "no source"
     obs += o_given
+    from ..rules import profile as _profile
+    obs += ctx.attempt(lambda c, cl: _profile.tables(c, cl, ('no-crash',))[0], ctx, "D-l", default=[])
+    from ..rules import profile as _profile2
+    obs += ctx.attempt(lambda c, cl: _profile2.shapes_tables(c, cl, ('no-crash',))[0], ctx, "D-m", default=[])
     exceptions.apply(obs)
     floors = [Floor("R-GIVEN truth-tested operands examined", n_truth, 300),
               Floor("R-SIG call sites bound against a signature", len(o_calls), 850),
